@@ -42,6 +42,7 @@ def gen_case(rng: random.Random, tier: str) -> dict:
         "terms": terms, "icpt": rng.random() < 0.6, "ordering": rng.choice(["degree", "none", "sort"]),
         "wrt": [rng.choice(V + ["q"]) for _ in range(rng.randint(1, 3))],
         "data": {v: [float(rng.randint(-4, 4)) for _ in range(n)] for v in V},
+        "entry": rng.choice(["formula", "formula", "spec", "fitted_spec", "structured", "structured_specs"]),
     }
 
 
@@ -74,16 +75,35 @@ def judge(case) -> Outcome:
     orig_terms = [[x.expr for x in t.factors] for t in form]
     out.sig = (tuple(sorted(len(t) for t in case["terms"])),
                tuple(tuple(w in t for w in wrt) for t in orig_terms), case["icpt"], case["ordering"], len(set(wrt)) != len(wrt))
+    entry = case.get("entry", "formula")
+    out.sig = out.sig + (entry,)
     try:
-        d = form.differentiate(*wrt)
+        # every public way of asking for the derivative
+        from formulaic import ModelSpec
+
+        if entry == "formula":
+            ds = [form.differentiate(*wrt)]
+        elif entry == "spec":
+            ds = [ModelSpec.from_spec(form).differentiate(*wrt).formula]
+        elif entry == "fitted_spec":
+            with quiet():
+                fitted = model_matrix(form, pd.DataFrame(case["data"]), context={}).model_spec
+            ds = [fitted.differentiate(*wrt).formula]
+        elif entry == "structured":
+            ds = list(Formula(f"{f} | {f}", _ordering=case["ordering"]).differentiate(*wrt)._flatten())
+        else:
+            specs = ModelSpec.from_spec(Formula(f"{f} | {f}", _ordering=case["ordering"])).differentiate(*wrt)
+            ds = [ms.formula for ms in specs._flatten()]
     except Exception as e:  # noqa: BLE001
-        out.fail("c20.differentiate_raised", f"{f!r} wrt {wrt}: {type(e).__name__}: {e}")
+        out.fail("c20.differentiate_raised", f"{f!r} wrt {wrt} via {entry}: {type(e).__name__}: {e}")
         return out
     exp = [sorted(dterm([x for x in t if x != "1"], wrt)) if t != ["1"] else ["0"] for t in orig_terms]
-    got = [sorted(x.expr for x in t.factors) for t in d]
-    if exp != got:
-        out.fail("c20.symbolic", f"{f!r} wrt {wrt}: derivative terms {got} != product rule {exp}")
-        return out
+    for d in ds:
+        got = [sorted(x.expr for x in t.factors) for t in d]
+        if exp != got:
+            out.fail("c20.symbolic", f"{f!r} wrt {wrt} via {entry}: derivative terms {got} != product rule {exp}")
+            return out
+    d = ds[0]
     if list(map(repr, form)) != list(map(repr, Formula(f, _ordering=case["ordering"]))):
         out.fail("c20.mutated_formula", "differentiate changed the original formula")
     out.see("symbolic_ok")
